@@ -224,6 +224,7 @@ class Interp:
         self._stack: list = []
         self.final_env = None
         self.loop_envs = {}          # loop node -> (env at head, env at end of body)
+        self.bad_attrs: list = []    # (fi, node, base value, attr): ndarray-kinded receiver without that attribute
 
     # ------------------------------------------------------------------ entry
     def run(self, fi: FuncInfo, args=None, kwargs=None):
@@ -1713,6 +1714,8 @@ class Interp:
                         if rets:
                             return self._join_vals(n, f"ret:{meth.name}", [r.value for r in rets])
                     return Form.atom(("meth", base, attr, tuple(map(as_value, args)), tuple(sorted((k, as_value(v)) for k, v in kwargs.items()))))
+            if s is not None and s.rsplit(".", 1)[-1] in ("signal", "noise", "data") and attr not in NDARRAY_API:
+                self.bad_attrs.append((fi, n, base, attr))
             if attr in _IDENTITY_METHODS:
                 return base
             if attr in _ARRAY_METHODS_AS_FN:
@@ -1823,6 +1826,16 @@ _CLASS_FIELDS = {
 
 def param_object(cls, name):
     return ObjV(cls, {f: Form.sym(f"{name}.{f}") for f in _CLASS_FIELDS.get(cls, ())}, None, name)
+
+
+NDARRAY_API = {
+    "T", "all", "any", "argmax", "argmin", "argpartition", "argsort", "astype", "base", "byteswap", "choose", "clip",
+    "compress", "conj", "conjugate", "copy", "ctypes", "cumprod", "cumsum", "data", "diagonal", "dot", "dtype", "dump",
+    "dumps", "fill", "flags", "flat", "flatten", "getfield", "imag", "item", "itemset", "itemsize", "max", "mean", "min",
+    "nbytes", "ndim", "newbyteorder", "nonzero", "partition", "prod", "ptp", "put", "ravel", "real", "repeat", "reshape",
+    "resize", "round", "searchsorted", "setfield", "setflags", "shape", "size", "sort", "squeeze", "std", "strides", "sum",
+    "swapaxes", "take", "tobytes", "tofile", "tolist", "tostring", "trace", "transpose", "var", "view",
+}
 
 
 def _load(t):
